@@ -199,7 +199,7 @@ class _G:
         sc = self.new_scope(mod_sc, params)
         if is_method:
             sc["self_fields"] = list(self_fields or [])
-        body = self.stmts(sc, self.i(3, 6), 0, ind + 1)
+        body = self.stmts(sc, self.i(2, 4), 0, ind + 1)
         if self.chance(75):
             body.append("%s    sink(%s)" % (pad, self.pick(["p"] + sc["vars"][:3])))
         body.append("%s    return %s" % (pad, self.var_atom(sc)))
@@ -215,12 +215,16 @@ class _G:
         for f in fields:
             lines.append("        self.%s = %s" % (f, self.pick(["p", "p", "0", self.pick(EXTS)])))
         methods = []
-        for mname in self.some(METHODS, 1, 3):
+        for mname in self.some(METHODS, 1, 2):
             info, ls = self.func(mod_sc, mname, ind=1, is_method=True, self_fields=fields)
             methods.append(info)
             lines += ls
-        cls = {"name": name, "methods": methods, "base": base,
-               "all_methods": methods + (base["cls"]["all_methods"] if base else [])}
+        # an overriding method hides the inherited one: calls always pass exactly the parameters of the method
+        # that is resolved (calls leaving >= 2 parameters unmatched are the construct of the known finding
+        # C14-unmatched-parameters-in-set-order; they are exercised by its replay files, not generated here)
+        own = {m["name"] for m in methods}
+        inherited = [m for m in (base["cls"]["all_methods"] if base else []) if m["name"] not in own]
+        cls = {"name": name, "methods": methods, "base": base, "all_methods": methods + inherited}
         return cls, lines
 
     def module(self, idx, name, earlier):
@@ -303,7 +307,7 @@ class _G:
         for f in funcs:
             for _ in range(self.i(1, 2)):
                 top.append("%s = %s(%s)" % (self.newvar(sc), f["name"], ", ".join(self.atom(sc) for _ in range(f["nparams"]))))
-        top += self.stmts(sc, self.i(2, 5), 0, 0)
+        top += self.stmts(sc, self.i(2, 4), 0, 0)
         top.append("sink(%s)" % self.var_atom(sc))
         lines += top
         return {"name": name, "funcs": funcs, "classes": classes, "consts": consts}, "\n".join(lines) + "\n"
